@@ -4,8 +4,9 @@ kind x nf x order x (N3LO variant x variation indices).
 Oracle = the conservation laws themselves (a number that has to vanish, or the beta coefficient typed
 here from the literature); no formula of eko is reused.  Tolerances are *relative* and per
 "accuracy class" of the order that is looked at (see TOL): a deviation of a sum is measured against
-the sum of the moduli of its terms, a deviation of a single moment against the largest modulus the same
-function takes on N in {2,3,5,8}.
+the sum of the moduli of its terms (but not less than the largest entry the matrix of that order takes
+on N in {2,3,5,8}: at single nf the N=2 entries themselves cancel between powers of nf), a deviation of a
+single moment against the largest modulus the same function takes on N in {2,3,5,8}.
 """
 
 import math
@@ -49,17 +50,17 @@ EU2, ED2 = 4.0 / 9.0, 1.0 / 9.0
 # ----------------------------------------------------------------------------- tolerances
 # class -> relative tolerance.  Documented accuracy (upper bound) and measured maximum (unchanged tree):
 TOL = {
-    # closed forms in S1 only: rounding.                                          measured 1.2e-15
+    # closed forms in S1 only: rounding.                                          measured 4e-13
     "exact": 1e-11,
     # exact NLO-type expressions, but with the Pegasus parametrisation of g3 (docstring of
-    # mellin_g3: 'approximate'; tests: atol 2e-6 / 4e-5 on O(30), decimal=4 on O(5)).  measured 1.7e-6
+    # mellin_g3: 'approximate'; tests: atol 2e-6 / 4e-5 on O(30), decimal=4 on O(5)).  measured 9.4e-7
     "g3": 3e-5,
     # x-space parametrisations of the NNLO kernels (MVV: 0.1% or better; repository tests pin the
-    # residual of the sum rules to <= 1e-2 absolute on O(500)).                   measured 2.4e-5
+    # residual of the sum rules to <= 1e-2 absolute on O(500)).                   measured 2.1e-5
     "nnlo": 3e-4,
-    # eko's own N3LO approximation: sum rules imposed analytically, parametrised sea part.  measured 1.5e-6
+    # eko's own N3LO approximation: sum rules imposed analytically, parametrised sea part.  measured 2.9e-6
     "n3lo-eko": 3e-5,
-    # FHMRUVV: docstrings 'high-accuracy (0.1% or better) parametrizations'.       measured 1.4e-4
+    # FHMRUVV: docstrings 'high-accuracy (0.1% or better) parametrizations'.       measured 9.9e-5
     "n3lo-fhmruvv": 1e-3,
 }
 NREF = (2.0, 3.0, 5.0, 8.0)
@@ -117,11 +118,6 @@ def _limit_N(f, n0, delta=1e-6):
 
 
 # ----------------------------------------------------------------------------- evaluators
-def _ns_rule(acc, sig, cls, f, what, n0=1.0, pole_documented=False):
-    """f(N) -> array over orders; checks that f vanishes at N=1 (per order handled by caller)."""
-    raise NotImplementedError
-
-
 def _qcd_like(case, res, acc):
     """unpolarised space-like / time-like / polarised, orders 1..3."""
     kind, nf = case["kind"], case["nf"]
@@ -159,7 +155,7 @@ def _qcd_like(case, res, acc):
                             f"{base}.momentum/order={k+1}/column={name}",
                             _cls(kind, k + 1),
                             m[0, col] + m[1, col],
-                            abs(m[0, col]) + abs(m[1, col]),
+                            max(abs(m[0, col]) + abs(m[1, col]), sref[k]),
                             f"nf={nf} N=2 gamma^({k})[:, {name}] = {m[:, col]}",
                         )
                 else:
@@ -170,7 +166,7 @@ def _qcd_like(case, res, acc):
                             f"{base}.momentum/order={k+1}/row={name}",
                             _cls(kind, k + 1),
                             2 * nf * m[row, 0] + m[row, 1],
-                            abs(2 * nf * m[row, 0]) + abs(m[row, 1]),
+                            max(abs(2 * nf * m[row, 0]) + abs(m[row, 1]), sref[k]),
                             f"nf={nf} N=2 gamma^({k})[{name}, :] = {m[row, :]} weights (2nf, 1)",
                         )
         # quark number: minus and valence
@@ -238,6 +234,7 @@ def _qed(case, res, acc):
     g = _call(res, "qed.gamma_singlet_qed/N=2", ad.gamma_singlet_qed, order, 2.0, nf, V0)
     names = ("g", "ph", "S", "Sdelta")
     if g is not None:
+        gref = np.max([np.abs(ad.gamma_singlet_qed(order, N, nf, V0)).max(axis=(2, 3)) for N in NREF], axis=0)
         for i in range(4):
             for j in range(3):
                 if (i, j) not in ((1, 0), (2, 0), (3, 0), (0, 1), (1, 1), (0, 2)):
@@ -250,7 +247,7 @@ def _qed(case, res, acc):
                         f"qed.momentum/order=({i},{j})/column={names[col]}",
                         _cls("qed", i, j),
                         m[0, col] + m[1, col] + m[2, col],
-                        max(abs(m[0, col]) + abs(m[1, col]) + abs(m[2, col]), 1e-3 * np.abs(m).max()),
+                        max(abs(m[0, col]) + abs(m[1, col]) + abs(m[2, col]), gref[i, j]),
                         f"nf={nf} N=2 gamma^({i},{j})[(g,ph,S), {names[col]}] = {m[:3, col]}",
                     )
     gv1 = _call(res, "qed.gamma_valence_qed/N=1", ad.gamma_valence_qed, order, 1.0, nf, V0)
@@ -303,9 +300,19 @@ def _n3lo(case, res, acc):
             t[{"gg": 0, "gq": 1, "qg": 2, "qq": 3, "nsp": 4, "nsm": 5, "nsv": 6}[k]] = v
         return tuple(t)
 
+    try:
+        sref = max(np.abs(ad.gamma_singlet((4, 0), N, nf, V0, fh)[3]).max() for N in NREF)
+    except Exception as e:  # noqa
+        res.fail(f"{base}.gamma_singlet/raises", f"{type(e).__name__}: {e} nf={nf}")
+        return
     # momentum: the quark column is built from (qq, gq), the gluon column from (qg, gg)
+    part = case.get("part")  # None: everything; ["col", c, ia]: one slice of a column; "rest": no column
     for col, name, (va, vb) in ((0, "quark", ("qq", "gq")), (1, "gluon", ("qg", "gg"))):
+        if part == "rest" or (isinstance(part, list) and part[1] != col):
+            continue
         for ia in range(nvar[va] + 1):
+            if isinstance(part, list) and part[2] != ia:
+                continue
             for ib in range(nvar[vb] + 1):
                 t = tup(**{va: ia, vb: ib})
                 g = _call(res, f"{base}.gamma_singlet/N=2", ad.gamma_singlet, (4, 0), 2.0, nf, t, fh)
@@ -316,9 +323,11 @@ def _n3lo(case, res, acc):
                     f"{base}.momentum/column={name}",
                     cls,
                     m[0, col] + m[1, col],
-                    abs(m[0, col]) + abs(m[1, col]),
+                    max(abs(m[0, col]) + abs(m[1, col]), sref),
                     f"nf={nf} variation={t} N=2 gamma^(3)[:, {name}] = {m[:, col]}",
                 )
+    if isinstance(part, list):
+        return
     # the same slot of the QED grid (uniform variations)
     for v in range(0, 3):
         t = (v,) * 7
@@ -331,7 +340,7 @@ def _n3lo(case, res, acc):
                 f"{base}.qed-momentum/column={name}",
                 cls,
                 m[0, col] + m[1, col] + m[2, col],
-                abs(m[0, col]) + abs(m[1, col]) + abs(m[2, col]),
+                max(abs(m[0, col]) + abs(m[1, col]) + abs(m[2, col]), sref),
                 f"nf={nf} variation={t} N=2 gamma^(4,0)[(g,ph,S), {name}] = {m[:3, col]}",
             )
     _n3lo_ns(case, res, acc, ad, fh, cls, base, tup)
@@ -405,6 +414,7 @@ def _fh_mean(case, res, acc):
         "nsm": fh.gamma_nsm,
         "nsv": fh.gamma_nsv,
     }
+    ref = {name: max(abs(f(N, nf, c.reset(), 0)) for N in NREF) for name, f in fns.items()}
     for name, f in fns.items():
         for N in MEAN_N:
             if N == 1.0 and name in ("gg", "gq", "ps", "qg"):
@@ -414,7 +424,7 @@ def _fh_mean(case, res, acc):
             except Exception as e:  # noqa
                 res.fail(f"fhmruvv.{name}/raises", f"{type(e).__name__}: {e} N={N} nf={nf}")
                 continue
-            sc = max(abs(x) for x in v)
+            sc = max(max(abs(x) for x in v), ref[name])
             acc.zero(
                 f"fhmruvv.central-is-mean/{name}",
                 "exact",
@@ -455,7 +465,7 @@ def evaluate(case):
         res.nontrivial = getattr(acc, "spread", 0) > 0
     else:
         res.nontrivial = acc.n > 0
-    res.outcome = f"{kind}:{'fail' if res.fails else 'ok'}:rules={acc.n}"
+    res.outcome = f"{kind}{'-' + case['variant'] if kind == 'n3lo' else ''}:{'fail' if res.fails else 'ok'}:rules={acc.n}"
     return res
 
 
@@ -464,7 +474,11 @@ def run(ctx):
     for nf in (3, 4, 5, 6):
         for kind in ("us", "ut", "ps", "qed"):
             cases.append({"kind": kind, "nf": nf})
-        cases.append({"kind": "n3lo", "variant": "eko", "nf": nf})
+        # eko's own N3LO: ~20 ms per evaluation, so one case per (column, first variation index)
+        cases.append({"kind": "n3lo", "variant": "eko", "nf": nf, "part": "rest"})
+        for col, va in ((0, "qq"), (1, "qg")):
+            for ia in range(EKO_NVAR[va] + 1):
+                cases.append({"kind": "n3lo", "variant": "eko", "nf": nf, "part": ["col", col, ia]})
     for nf in (3, 4, 5):
         cases.append({"kind": "n3lo", "variant": "fhmruvv", "nf": nf})
         cases.append({"kind": "fhmruvv-mean", "nf": nf})
